@@ -22,6 +22,14 @@ CLAIMS = {
         technique="TLA+ spec (Topology.tla) exhaustively checked by TLC; tables and pair verdicts compared with the implementation (B3 exact)",
         engine="tlc-table",
     ),
+    "C16": dict(
+        category="model_checking",
+        text="spec/Params.tla is an implementation-shaped model of VarsManager (one variable per attribute, one action per public method, bodies transcribed from the code, histories restricted by a phase variable to the order a configuration applies operations). TLC checks every stated property of C16 (FixedOnlyExplicit, TiedEqual, TiedCountOnce, TieKeepsFree, ReadWriteIdentity, ComplexPreserved, StandardForm, BoundInverse, FitStepLocal) exhaustively up to the depth bound on three configurations; the labelled state graph is dumped and its edges are executed on a real VarsManager (projection compared and the observers of C16 evaluated on the real object after every step), long TLC-simulated behaviours are replayed the same way, and TLC counterexamples are replayed on the real code before they count. Analytic bound maps are checked numerically.",
+        design_ref="DESIGN.md 3.1, 5/C16",
+        note="Trusted: TLC; the lattice abstraction (integer values, complex values r*i^k, custom bound x+1 on [0,3]); depth bounds (quick 3-5, thorough 5-6) plus simulation depth 25-30; quick tier replays a seeded sample of graph edges; ReadWriteIdentity is stated for sessions without an active mask block; bound inverse/slope for analytic kinds sampled on a grid.",
+        technique="TLA+ state machine (Params.tla) model-checked by TLC; behaviours replayed into the real VarsManager (B1), counterexamples confirmed on the code",
+        engine="tlc-replay",
+    ),
 }
 
 NOT_YET = "check not built yet in this round (planned in DESIGN.md 5); not claimed until its specification is bound to the code"
